@@ -27,3 +27,24 @@ SPEC = dict(
     assumptions=["set/map backings hold no duplicate keys", "MapUnion/WithBot value lattices have a non-bottom value (ok3)",
                  "element/key types are effectively unbounded"],
 )
+
+
+# The tombstone lattices (set_union_with_tombstones / map_union_with_tombstones) are lattices of the same
+# crate: their merge flags and comparisons are modelled in HvLatSpec (C05's model), so this property also
+# runs that part (same theorems module, same harness mode, same oracle signatures as ./check C05).
+def _with_c05_part(spec):
+    import importlib.util, os
+    here = os.path.dirname(os.path.abspath(__file__))
+    sp = importlib.util.spec_from_file_location("check_C05_for_" + spec["id"], os.path.join(here, "C05.py"))
+    mod = importlib.util.module_from_spec(sp)
+    sp.loader.exec_module(mod)
+    c5 = mod.SPEC
+    keys = ("lean_project", "props_module", "driver", "harness", "bin", "mode", "cases", "extra_args",
+            "translate", "extra", "theorems", "harness_timeout", "driver_timeout")
+    own = {k: spec[k] for k in keys if k in spec}
+    other = {k: c5[k] for k in keys if k in c5}
+    spec["parts"] = [own, other]
+    return spec
+
+
+SPEC = _with_c05_part(SPEC)
